@@ -33,7 +33,7 @@ import (
 //     effect (where that span lies for goldmark: text, code span, code block, HTML block, raw
 //     HTML, link syntax; or wrong value; or structure broken by the written text) is one the
 //     class names;
-//  2. precision self-test, on every run: a few hundred generated documents for which the
+//  2. precision self-test, on every run: 250 generated documents for which the
 //     class predicts something are run on the real code; the share in which the real code
 //     really does what was predicted (and the oracle fails) must be >= 95 %. A class whose
 //     prediction also holds for documents that pass is too broad and is reported as a broken
@@ -286,8 +286,9 @@ func analyse(doc string) *docInfo {
 			c := cand{span: span{ls + sp.s, ls + sp.e}, raw: raw, def: def, line: line, ls: ls, ln: ln, open: lb >= 0, lb: ls + lb, anchor: ls + anchor}
 			if c.open {
 				// a `](` since the open bracket that reads as the end of a link
+				esc := escapedBytes(line)
 				for q := lb + 1; q+1 < anchor; q++ {
-					if line[q] == ']' && line[q+1] == '(' {
+					if line[q] == ']' && line[q+1] == '(' && !esc[q] {
 						if _, _, ok := anchorDest(line, q); ok || strings.HasPrefix(line[q:], "]()") {
 							c.nested = true
 						}
@@ -313,8 +314,9 @@ func analyse(doc string) *docInfo {
 				}
 			}
 		}
+		esc := escapedBytes(line)
 		for p := 0; p+1 < len(line); p++ {
-			if line[p] == ']' && line[p+1] == '(' {
+			if line[p] == ']' && line[p+1] == '(' && !esc[p] {
 				if sp, raw, ok := anchorDest(line, p); ok {
 					// the reader resumes after what it skipped as HTML: brackets and code spans count from there
 					q := p
@@ -397,6 +399,18 @@ func openBracket(prefix string) int {
 		return -1
 	}
 	return stack[len(stack)-1]
+}
+
+// escapedBytes: per byte of line, whether a backslash escapes it
+func escapedBytes(line string) []bool {
+	esc := make([]bool, len(line))
+	for i := 0; i+1 < len(line); i++ {
+		if line[i] == '\\' && isPunctByte(line[i+1]) {
+			esc[i+1] = true
+			i++
+		}
+	}
+	return esc
 }
 
 func isPunctByte(c byte) bool {
@@ -1361,7 +1375,7 @@ func predictionCameTrue(f *findingDef, doc string, pred []span, clause, detail s
 // ---------------------------------------------------------------- precision self-test
 
 const precisionWanted = 950 // per mille
-const precisionDocs = 300
+const precisionDocs = 250
 
 // precisionSelfTest: for every class, documents for which the class predicts something, from
 // every class's generator (a document made for one class is also a sample for the others);
@@ -1380,20 +1394,25 @@ func precisionSelfTest(c *hx.Ctx, report func(kind, name, caseLine, human, impl,
 		}
 		// the class's own generator until the class has its documents (what it makes is offered to
 		// every class), but at least a few hundred draws so that each generator feeds the others
-		for try := 0; try < 20*precisionDocs && (len(samples[g]) < precisionDocs || try < precisionDocs); try++ {
+		for try := 0; try < 12*precisionDocs && (len(samples[g]) < precisionDocs || try < precisionDocs); try++ {
 			d := findingDefs[g].gen(c.R)
 			// one time in three inside a document of the main stream: what a class predicts must
 			// not depend on the document being small
-			switch c.R.Intn(6) {
+			switch c.R.Intn(8) {
 			case 0:
 				d = genBlock(c.R) + pick(c.R, []string{"\n\n", "\n\n", "\n"}) + d
 			case 1:
 				d = genBlock(c.R) + "\n\n" + d + "\n\n" + genBlock(c.R)
+			case 2: // and with the small things a bracket scanner cares about before or after it
+				d = filler(c.R) + d
+			case 3:
+				d = d + filler(c.R)
 			}
 			if seen[d] || len(d) > 400 {
 				continue
 			}
 			seen[d] = true
+			c.Res.Histogram["class-precision/"+findingDefs[g].id+"/drawn"]++
 			in := analyse(d)
 			for i := range findingDefs {
 				if len(samples[i]) < precisionDocs {
@@ -1404,6 +1423,7 @@ func precisionSelfTest(c *hx.Ctx, report func(kind, name, caseLine, human, impl,
 			}
 		}
 	}
+	c.Res.Histogram["class-precision/documents-drawn"] = len(seen)
 	for i := range findingDefs {
 		f := &findingDefs[i]
 		var docs []string
